@@ -152,6 +152,10 @@ def lang_names(lang):
         from checks import c05
         ms, ws = {}, {}
         for key, name in c05.names_for(lang, True, True):
+            if any(ch.isdigit() for ch in name):
+                # a name that contains a digit (dz/bo 'ཟླ་༡༠', zh '10月') can be read as a number plus a word, so the
+                # construction would not say which parts the string states (and such names are C05 findings)
+                continue
             if key in data.MONTHS:
                 ms.setdefault(data.MONTHS.index(key) + 1, []).append(name)
             else:
